@@ -11,6 +11,8 @@ R4.4  path-level / operation-level parameters are merged by (name, in) with oper
 R4.5  optional => omitted when None: required parameters use the plain entry, optional ones the conditional unpack
 R4.6  one sanitizer for URL holes and signature names
 R4.12 the path template reaches the URL unchanged apart from placeholder renaming (no strip / replace / case change / inserted text)
+R4.22 the content type a body is sent with is one the operation declares: every constant assigned to `primary_content_type` is tested for membership in the declared media types
+R4.21 one awaited call issues exactly one request: the bundled transport sends from one site, never from a retry / replay branch            [= R6.13]
 R4.13 the overload implementation selects a media type's branch by the presence of that media type's body argument
 R4.14 the None-stripping pass of the body serialiser never drops an element of a list (only dict keys with a None value)
 R4.15 hook registration descends into every field of a body model (no field is skipped by name)                          [= R16.7]
@@ -34,8 +36,8 @@ from typing import Dict, List, Optional, Set, Tuple
 
 from sa.cfg import CFG, guards
 from sa.model import AnalysisError, Function, Repo, calls_in, const_str, dotted, full, norm, own_nodes, parent
-from sa.match import Locals, match, names_in
-from sa.report import Report
+from sa.match import Locals, conjuncts, match, names_in
+from sa.report import Report, with_flatten_fallback
 from sa.templates import HOLE, template_of
 
 LOCATIONS = ["path", "query", "header", "cookie"]
@@ -235,6 +237,9 @@ def run(repo: Repo, rep: Report, tier: str) -> None:
     _reuse4(repo, rep, "c16", {"R16.2": "R4.10"}, only=lambda subj: "visited bookkeeping" in subj)
     # R4.11: the transport forwards every caller kwarg except headers unchanged (an empty list / dict body is still a body)
     _reuse4(repo, rep, "c17", {"R17.3": "R4.11"})
+    rule_primary_content_type_is_declared(repo, rep, "R4.22")
+    # R4.21: one awaited call issues exactly one request - the bundled transport has one send site, outside loops / handlers   [= R6.13]
+    _reuse4(repo, rep, "c06", {"R6.13": "R4.21"})
     rule_array_elements_kept(repo, rep, "R4.14")
     rule_enum_before_primitive_shortcut(repo, rep, "R4.16")
     rule_locals_do_not_shadow_arguments(repo, rep, "R4.17")
@@ -831,3 +836,55 @@ def rule_path_arguments_are_encoded(repo: Repo, rep, rule: str = "R4.20") -> Non
         rep.violation(rule, sub, f"{ua.fq}|path-argument-not-encoded",
                       f"`{path_lines[0].strip()[:70]}` interpolates the argument as it is: a value containing `/`, `?`, `#` or `%` changes the path, adds a query or cuts the URL "
                       "(`tag='c#'` requests `/tags/c`)", ua.loc())
+
+
+# ------------------------------------------------------------------------------------------------ R4.22 the primary content type is a declared one
+def rule_primary_content_type_is_declared(repo: Repo, rep, rule: str = "R4.22") -> None:
+    """`process_parameters` returns the media type the request generator builds the call for (`json=` -> httpx labels the body application/json,
+    `files=`, `data=` + explicit Content-Type).  The body goes out under that label, so it must be one of the operation's declared media
+    types: a constant assigned to the returned variable is acceptable only under the test `<that constant> in <declared media types>`; any
+    other value must be taken from the declared collection itself.  (`application/merge-patch+json` sent as `application/json` is another
+    request: servers that distinguish RFC 7386 merge patch from a full JSON document apply other semantics or answer 415.)"""
+    pp = repo.func("visit.endpoint.processors.parameter_processor:EndpointParameterProcessor.process_parameters")
+
+    def body(fn, r):
+        rets = [x for x in own_nodes(fn.node) if isinstance(x, ast.Return) and isinstance(x.value, ast.Tuple) and len(x.value.elts) >= 2 and isinstance(x.value.elts[1], ast.Name)]
+        if not rets:
+            raise AnalysisError(f"{rule}: process_parameters no longer returns (params, <content type>, ...) (anchor)")
+        var = rets[0].value.elts[1].id  # type: ignore[union-attr]
+        cfg = CFG(fn.node)
+        dom = cfg.dominators()
+        L = Locals(fn.node)
+        n_const = 0
+        for nd in cfg.nodes:
+            st = nd.ast
+            if nd.kind != "stmt" or nd.copy or not isinstance(st, (ast.Assign, ast.AnnAssign)):
+                continue
+            tg = st.targets if isinstance(st, ast.Assign) else [st.target]
+            if not any(isinstance(t, ast.Name) and t.id == var for t in tg) or st.value is None:
+                continue
+            v = st.value
+            if isinstance(v, ast.Constant) and v.value is None:
+                continue
+            sub = f"{fn.module.relpath}:process_parameters `{var} = {norm(v)[:40]}`"
+            lit = const_str(v)
+            if lit is not None:
+                n_const += 1
+                ok = False
+                for g, pol in guards(cfg, nd.id, dom):
+                    if g.kind == "test" and pol is True:
+                        for c in conjuncts(L.inline(g.ast, stop=tuple(L.params))) if g.ast is not None else []:
+                            if isinstance(c, ast.Compare) and len(c.ops) == 1 and isinstance(c.ops[0], ast.In) and const_str(c.left) == lit:
+                                ok = True
+                if ok:
+                    r.ok(rule, sub, f"assigned under the test `{lit!r} in <declared media types>`", fn.loc(st))
+                else:
+                    r.violation(rule, sub, f"{pp.fq}|content-type-constant-not-declared|{lit}",
+                                f"the body is labelled `{lit}` on a path that does not establish that the operation declares `{lit}`: a body declared as another media type "
+                                "(e.g. `application/merge-patch+json`, `application/vnd.api+json`) goes out with a Content-Type the document does not have", fn.loc(st))
+            else:
+                r.ok(rule, sub, "taken from the declared media types", fn.loc(st))
+        if n_const < 3:
+            raise AnalysisError(f"{rule}: only {n_const} constant content-type assignment(s) found in process_parameters (floor 3)")
+
+    with_flatten_fallback(rep, pp, body)
